@@ -28,7 +28,7 @@ Definition cumulative_days (leap : bool) (month0 : Z) : Z := cumul_upto leap (Z.
 Definition is_gregorian_valid (year month day hour minute second nanos : Z) : bool :=
   let max_seconds :=
     if ((month =? 12) || (month =? 6)) && (day =? usual_days_per_month month) && (hour =? 23) && (minute =? 59)
-       && (((month =? 6) && july_years year) || ((month =? 12) && january_years (year + 1)))
+       && (((month =? 6) && july_years year) || ((month =? 12) && january_years (wrap_signed 32 (year + 1))))
     then 60 else 59 in
   if (month =? 0) || (12 <? month) || (day =? 0) || (31 <? day) || (24 <? hour) || (59 <? minute)
      || (max_seconds <? second) || (NANOSECONDS_PER_SECOND_U32 <? nanos) then false
